@@ -155,7 +155,7 @@ TWkClone == Ev0("wk_clone")
             /\ Adv
 TWkWake ==  Ev("wk_wake") /\ At("ka_wake") /\ E.a = L[P].wtmp /\ KAWake(P) /\ Adv
 
-SkipKinds == {"a8_rmw", "ab_rmw", "yield", "fence", "current", "thread_clone", "ptr_read", "ptr_write", "ptr_copy", "usize_load",
+SkipKinds == {"fut_born", "fut_dead", "barrier", "a8_rmw", "ab_rmw", "yield", "fence", "current", "thread_clone", "ptr_read", "ptr_write", "ptr_copy", "usize_load",
               "parallelism", "wk_drop", "dead", "D", "start", "finish", "phase", "wait_waker", "tick", "point", "end"}
 TSkip == /\ InRange /\ E.k \in SkipKinds /\ (E.k = "end" \/ Timed) /\ UNCHANGED vars /\ Adv
 
